@@ -11,7 +11,7 @@ from corpus import programs as CP
 from engine.vsym import build, drivers
 
 from . import pyh
-from .common import Part, Q, Report, approx_equal, finish, pmap, solve, tier_timeout_ms, write_replay
+from .common import Part, Q, Report, approx_equal, finish, pmap, solve, solve_external, tier_timeout_ms, write_replay
 from .cpph import CppFilter
 
 PID = "C12"
@@ -153,8 +153,8 @@ def task(p, cse, k, max_dt, tier, seed):
                                 x = z3.substitute(b_arg[i1][i2], *subst) if subst else b_arg[i1][i2]
                                 y = z3.substitute(a_arg[i1][i2], *subst) if subst else a_arg[i1][i2]
                                 if not x.eq(y) and ok_cuts:
-                                    q = solve([z3.substitute(c, *subst) if subst else c for c in pc] + [x != y], 3000)
-                                    if q.status != "unsat":
+                                    # nested terms that differ structurally: a killable external solver process decides
+                                    if solve_external([z3.substitute(c, *subst) if subst else c for c in pc] + [x != y], 4.0) != "unsat":
                                         ok_cuts = False
                         for i1 in range(m):
                             for i2 in range(m):
@@ -218,14 +218,13 @@ def task(p, cse, k, max_dt, tier, seed):
                             part.d["queries"]["unknown"] += 1
                             part.d["inconclusive"].append(f"{key_base}/{name}: {nm} (solver budget for this leaf used up)")
                             continue
-                        q = solve(pcs + [a2 != b2], min(tmo, 10000))
-                        part.d["queries"][q.status] += 1
-                        part.d["solver_s"] += q.secs
-                        if q.status == "unsat":
+                        st_ = solve_external(pcs + [a2 != b2], 8.0)
+                        part.d["queries"][st_] += 1
+                        if st_ == "unsat":
                             n_eq += 1
                         else:
                             budget -= 1
-                            part.d["inconclusive"].append(f"{key_base}/{name}: {nm} ({q.status}; no concrete disagreement found)")
+                            part.d["inconclusive"].append(f"{key_base}/{name}: {nm} ({st_}; no concrete disagreement found)")
                 elif pend:
                     part.d["queries"]["sat"] += len(pend)
                 part.d["obligations"].append({"name": f"{key_base}/{name}[{l.decisions or '-'}]: managed tick == by-hand calls ({len(pairs)} named outputs)", "status": "unsat" if n_eq == len(pairs) else "mixed", "s": 0})
